@@ -32,9 +32,20 @@ func genLen(r *Rng, max int) int {
 // genBody returns content of roughly n bytes drawn from the adversarial alphabet
 func genBody(r *Rng, n int) []byte {
 	var sb strings.Builder
-	mode := r.Intn(5)
+	mode := r.Intn(6)
 	for sb.Len() < n {
 		switch mode {
+		case 5: // text lines of lengths around the wrapping points that begin like mbox / SMTP / MIME markers
+			sb.WriteString([]string{"From ", "From ", ">From ", "From: ", ".", "--", "", "", "=46rom "}[r.Intn(9)])
+			l := lenClusters[r.Intn(18)]
+			for k := 0; k < l; k++ {
+				if k%7 == 6 {
+					sb.WriteByte(' ')
+				} else {
+					sb.WriteByte(byte('a' + r.Intn(26)))
+				}
+			}
+			sb.WriteString([]string{"\r\n", "\r\n", "\n"}[r.Intn(3)])
 		case 0: // plain text lines
 			if r.Chance(8) {
 				sb.WriteString("\r\n")
@@ -52,7 +63,7 @@ func genBody(r *Rng, n int) []byte {
 		}
 	}
 	s := sb.String()
-	if len(s) > n && mode != 3 && mode != 4 {
+	if len(s) > n && mode != 3 && mode != 4 && mode != 5 {
 		s = s[:n]
 	}
 	return []byte(s)
